@@ -27,7 +27,7 @@ def one(patch):
             r = subprocess.run(["./check", cid, "--tier", "quick"], cwd=ROOT, env=env, capture_output=True, text=True)
             v = [l for l in r.stdout.splitlines() if l.startswith("VIOLATION")]
             if r.returncode != 0:
-                res[cid] = f"exit {r.returncode}: " + ("; ".join(v[:2]) if v else r.stdout[-200:].replace("\n", " "))
+                res[cid] = f"exit {r.returncode}: " + ("; ".join(v[:2]) if v else (r.stdout[-200:] + " | " + r.stderr[-600:]).replace("\n", " "))
     finally:
         subprocess.run(["git", "-C", "/repo", "worktree", "remove", "--force", wt])
     return name, res
